@@ -209,8 +209,23 @@ class Ctx:
                 break
             max_examples = max(50, max_examples // 2)
 
-    def machine(self, cls, max_examples, steps, tag="", rounds=3):
-        """Run a rule-based state machine class (must call ctx.check via self.ctx)."""
+    def machine(self, cls, max_examples, steps, tag="", rounds=3, chunk=150):
+        """Run a rule-based state machine class (must call ctx.check via self.ctx).
+        Large budgets are split into independent runs of ``chunk`` examples (own derived seed each): the engine keeps every
+        explored example (choice nodes, cached results) alive for the duration of one run, which is ~7 MB per 150-step example."""
+        import gc
+        done, ci = 0, 0
+        while done < max_examples:
+            n = min(chunk, max_examples - done)
+            nerr = len(self.errors)
+            self._machine_run(cls, n, steps, tag if ci == 0 else "%s#%d" % (tag, ci), rounds)
+            done += n
+            ci += 1
+            gc.collect()
+            if len(self.errors) > nerr:
+                break
+
+    def _machine_run(self, cls, max_examples, steps, tag, rounds):
         import hypothesis
         from hypothesis import HealthCheck, Phase, settings
         from hypothesis.stateful import run_state_machine_as_test
